@@ -106,27 +106,11 @@ end NeoModel.VmAcct
 namespace NeoModel.VmAcct
 
 /-- runs in which no cyclic structure was ever built and exception unwinding never dropped an
-evaluation stack with content (`s.base = []`: the VM's first stack object is empty, which is the
-case for a VM that starts with `LoadScript` on an empty stack) -/
+evaluation stack with content -/
 inductive RunExact : St → Prop where
   | init : RunExact St.init
   | step {s s' : St} (op : Op) (unw : Option (Nat × Bool)) (ext : Bool) :
-      RunExact s → op.okFor s → Acyclic s.c.heap → s.base = [] → cleanUnwind s op unw →
+      RunExact s → op.okFor s → Acyclic s.c.heap → cleanUnwind s op unw →
       step s op unw ext = some s' → RunExact s'
-
-theorem runExact_inv {s : St} (h : RunExact s) : InvS s [] := by
-  induction h with
-  | init => exact init_inv
-  | step op unw ext _ hok ha hb hcl hs ih =>
-    obtain ⟨lk', i', hl⟩ := step_inv op unw ext hok ih hs
-    rw [hl ha hb hcl rfl] at i'
-    exact i'
-
-/-- **refs_exact**: as long as no cyclic structure was built (and no evaluation stack with content
-was dropped by exception unwinding — the known finding), the implementation's counter equals what
-is reachable by walking. -/
-theorem refs_exact {s : St} (h : RunExact s) (ha : Acyclic s.c.heap) : s.c.refs = (s.reach : Int) := by
-  have i := runExact_inv h
-  exact refs_eq_reach s.c s.roots (i.ctr.congr (by intro id; simp) (by simp)) ha
 
 end NeoModel.VmAcct
